@@ -125,6 +125,7 @@ type facts struct {
 	EmptyOpen                  bool     `json:"empty_open"`
 	EmptyOpenFile              bool     `json:"empty_openfile"`
 	EmptyCreate                bool     `json:"empty_create"`
+	MkdirAllRechecks           bool     `json:"mkdirall_rechecks"`
 }
 
 // ---- MoveWithContext ----
@@ -646,6 +647,40 @@ func isPathWithinHelper(fd *ast.FuncDecl) {
 	}
 }
 
+// ---- MkDirAll ----
+
+func mkDirAll(fd *ast.FuncDecl, f *facts) {
+	want := []string{"err = fs.checkWhetherUnderlyingResourceIsClosed()", "#err",
+		`if dir == "" { return fmt.Errorf("missing path: %w", commonerrors.ErrUndefined) }`,
+		"if fs.Exists(dir) { return }",
+		"err = ConvertFileSystemError(fs.vfs.MkdirAll(dir, perm))"}
+	texts := []string{}
+	for _, s := range fd.Body.List {
+		if isErrReturnIf(s) {
+			texts = append(texts, "#err")
+		} else {
+			texts = append(texts, src(s))
+		}
+	}
+	if len(texts) < len(want)+1 {
+		die(fd.Pos(), "MkDirAll: too short: %v", texts)
+	}
+	for i := range want {
+		if texts[i] != want[i] {
+			die(fd.Body.List[i].Pos(), "MkDirAll: statement %q where %q was expected", texts[i], want[i])
+		}
+	}
+	tail := texts[len(want):]
+	switch {
+	case len(tail) == 2 && tail[0] == "if err != nil && fs.Exists(dir) { err = nil }" && tail[1] == "return":
+		f.MkdirAllRechecks = true
+	case len(tail) == 1 && tail[0] == "return":
+		f.MkdirAllRechecks = false
+	default:
+		die(fd.Pos(), "MkDirAll: unsupported tail: %v", tail)
+	}
+}
+
 func b(v bool) string {
 	if v {
 		return "true"
@@ -690,6 +725,7 @@ func main() {
 		f.EmptyCreate = emptyGuard(get(fs, "VFS.CreateFile"), "name")
 	}
 	isPathWithinHelper(get(fs, "isPathWithin"))
+	mkDirAll(get(fs, "VFS.MkDirAll"), &f)
 
 	var v bytes.Buffer
 	v.WriteString("(* GENERATED by translator-c06/cmd/vfs2coq from utils/filesystem/files.go of the repository's working tree — DO NOT EDIT;\n   regenerated on every run of ./check C06.  The facts the mechanised model M (VfsGen.v) is parameterised by. *)\n")
@@ -706,7 +742,7 @@ func main() {
 		{"f_empty_openfile", b(f.EmptyOpenFile)}} {
 		fmt.Fprintf(&v, "  %s := %s;\n", kv[0], kv[1])
 	}
-	fmt.Fprintf(&v, "  f_empty_create := %s\n|}.\n", b(f.EmptyCreate))
+	fmt.Fprintf(&v, "  f_empty_create := %s;\n  f_mkdirall_rechecks := %s\n|}.\n", b(f.EmptyCreate), b(f.MkdirAllRechecks))
 	writeIfChanged(filepath.Join(os.Args[1], "Gen.v"), v.Bytes())
 	js, _ := json.MarshalIndent(f, "", " ")
 	writeIfChanged(filepath.Join(os.Args[1], "facts.json"), append(js, '\n'))
